@@ -60,8 +60,8 @@ def judge(ctx, last, head, changes, step, kind):
             sig = 'C29|order-not-increasing'
         elif set(l for l, _ in got) < set(l for l, _ in expected):
             missing = min(set(l for l, _ in expected) - set(l for l, _ in got))
-            lowest = min(probes)
-            sig = 'C29|change-missed|' + ('below-lowest-sample' if missing <= lowest else 'inside')
+            lowest = min(probes) if probes else None
+            sig = 'C29|change-missed|' + ('no-level-was-read' if lowest is None else 'below-lowest-sample' if missing <= lowest else 'inside')
         else:
             sig = 'C29|wrong-report'
         return ctx.violation(sig, 'expected=%r got=%r' % (expected, got), case)
